@@ -809,6 +809,8 @@ func (e *Engine) havocLog(st *State, name string) {
 	}
 	nl := &CallLog{Len: e.ctx.Fresh("loglen_"+name, SInt), ArgT: l.ArgT}
 	st.Assume(Le(IntLit(0), nl.Len))
+	nl.Succ = e.ctx.Fresh("logsucc_"+name, SInt)
+	st.Assume(And(Le(IntLit(0), nl.Succ), Le(nl.Succ, nl.Len)))
 	for _, arrs := range l.Args {
 		var na []Term
 		for _, a := range arrs {
